@@ -28,25 +28,50 @@ MODEL_FILES = ['MaltModel/Func/Target.lean', 'MaltModel/Func/Functionalise.lean'
                'MaltModel/Drv/C02.lean']
 FUEL = 400
 CLASSES = ['for_target_live_across_zero_trip', 'nonlocal_write_in_reaching_closure',
-           'nested_function_parameter_shadows_global', 'state_var_unbound_local_of_enclosing_body']
+           'nested_function_parameter_shadows_global', 'state_var_unbound_local_of_enclosing_body',
+           'nonlocal_state_var_marked_input_only']
 
 
 # ------------------------------------------------------------------------------------------------
 # class predicates (computed from the program, never from the failure)
 # ------------------------------------------------------------------------------------------------
 def cls_closure_nonlocal(fn_node):
-    """A nested def declares a variable of the enclosing function `nonlocal` and assigns it."""
+    """A nested def declares a variable `v` of the function `nonlocal` (so liveness does not see its accesses to `v`),
+    and the function itself assigns `v` inside one of its own if/while/for bodies (the write that gets lost)."""
+    decl = set()
     for n in ast.walk(fn_node):
-        if isinstance(n, (ast.FunctionDef, ast.Lambda)) and n is not fn_node:
-            decl = set()
+        if isinstance(n, ast.FunctionDef) and n is not fn_node:
             for m in ast.walk(n):
                 if isinstance(m, ast.Nonlocal):
                     decl |= set(m.names)
-            if decl:
-                for m in ast.walk(n):
+    if not decl:
+        return False
+
+    def stores(stmts, in_cf):
+        for s in stmts:
+            if isinstance(s, (ast.FunctionDef, ast.ClassDef)):
+                continue
+            cf = in_cf or isinstance(s, (ast.If, ast.While, ast.For))
+            if in_cf:
+                for m in ast.walk(s):
+                    if isinstance(m, (ast.FunctionDef, ast.Lambda)):
+                        continue
                     if isinstance(m, ast.Name) and isinstance(m.ctx, ast.Store) and m.id in decl:
                         return True
-    return False
+            for sub in ('body', 'orelse', 'finalbody'):
+                b = getattr(s, sub, None)
+                if isinstance(b, list) and b and isinstance(b[0], ast.stmt) and stores(b, cf):
+                    return True
+            if isinstance(s, ast.Try):
+                for h in s.handlers:
+                    if stores(h.body, cf):
+                        return True
+            if isinstance(s, ast.For) and in_cf is False and cf:
+                for m in ast.walk(s.target):
+                    if isinstance(m, ast.Name) and m.id in decl:
+                        return True
+        return False
+    return stores(fn_node.body, False)
 
 
 def cls_param_shadows_global(fn_node, module_names):
@@ -68,6 +93,57 @@ def cls_param_shadows_global(fn_node, module_names):
         if isinstance(n, ast.Name) and isinstance(n.ctx, ast.Load) and n.id in params and n.id in module_names \
                 and n.id not in assigned and n.id not in own_params:
             return True
+    return False
+
+
+def cls_nonlocal_input_only(cf_node, annos_of):
+    """Inside a function that declares `v` nonlocal/global, a conditional assigns `v` in a branch while `v` is live into
+    the conditional but not live after it *within that function* (liveness does not know that a nonlocal/global escapes):
+    `_get_block_vars` marks `v` input-only, i.e. not among the first `nouts` outputs."""
+    if cf_node is None:
+        return False
+
+    def own_stmts(fn):
+        """statements of fn, not descending into nested defs"""
+        stack = list(fn.body)
+        while stack:
+            s = stack.pop()
+            yield s
+            if isinstance(s, (ast.FunctionDef, ast.ClassDef)):
+                continue
+            for sub in ('body', 'orelse', 'finalbody'):
+                b = getattr(s, sub, None)
+                if isinstance(b, list):
+                    stack.extend(x for x in b if isinstance(x, ast.stmt))
+            if isinstance(s, ast.Try):
+                for h in s.handlers:
+                    stack.extend(h.body)
+
+    def stores(stmts):
+        out = set()
+        for s in stmts:
+            if isinstance(s, (ast.FunctionDef, ast.ClassDef)):
+                continue
+            for m in ast.walk(s):
+                if isinstance(m, ast.Name) and isinstance(m.ctx, ast.Store):
+                    out.add(m.id)
+        return out
+    for fn in ast.walk(cf_node):
+        if not isinstance(fn, ast.FunctionDef):
+            continue
+        decl = set()
+        for s in own_stmts(fn):
+            if isinstance(s, (ast.Nonlocal, ast.Global)):
+                decl |= set(s.names)
+        if not decl:
+            continue
+        for s in own_stmts(fn):
+            if isinstance(s, ast.If):
+                an = annos_of(s)
+                mod = stores(s.body) | stores(s.orelse)
+                for v in decl & mod:
+                    if v in an.get('LIVE_VARS_IN', []) and v not in an.get('LIVE_VARS_OUT', []):
+                        return True
     return False
 
 
@@ -143,6 +219,8 @@ def classify(source_fn, module_names, cf_node, annos_of, final_fn):
         out.append('nested_function_parameter_shadows_global')
     if final_fn is not None and risk_state_unbound(final_fn):
         out.append('state_var_unbound_local_of_enclosing_body')
+    if cls_nonlocal_input_only(cf_node, annos_of):
+        out.append('nonlocal_state_var_marked_input_only')
     return out
 
 
